@@ -193,9 +193,11 @@ class Variable(object):
         cvar = context.get("variable")
         # preserve variable composition information if that is present
         composed = []
-        if cvar and ("type" in cvar):
-            # If cvar has no "type",
-            # then no types were in the recent variable or earlier
+        if cvar and ("type" in cvar or "compose" in cvar):
+            # If cvar has neither "type" nor "compose",
+            # then no types were in the recent variable or earlier.
+            # (An untyped variable applied after typed ones
+            # has "compose", but no "type".)
             if "type" in var_context:
                 cur_type = var_context["type"]
             else:
